@@ -43,7 +43,7 @@ class Library:
         self.sparse = ModVal("scipy.sparse", self._sparse_table())
         self.scipy = ModVal("scipy", {"sparse": self.sparse, "linalg": ModVal("scipy.linalg", {})})
         self.math = ModVal("math", {"sqrt": lambda x: ssqrt(x), "pi": Fraction(_math.pi), "inf": _math.inf,
-                                    "log10": lambda x: _oor("math.log10")})
+                                    "log10": lambda x: sym.slog10(x)})
         self.time = ModVal("time", {"time": lambda: Opaque("time"), "perf_counter": lambda: Opaque("time")})
         self.mods.update({"numpy": self.np, "np": self.np, "quaternion": self.quaternion,
                           "scipy": self.scipy, "scipy.sparse": self.sparse, "math": self.math, "time": self.time,
@@ -275,7 +275,7 @@ class Library:
                     ncm.dims_equal(parts[0].shape[0], p.shape[0], "conformable.stack")
                     ncm.dims_equal(parts[0].shape[1], p.shape[1], "conformable.stack")
                 return F4([RMat(p.p, "dense") if p.storage == "dense" else _raise_sparse_stack() for p in parts])
-            h = _dispatch("np_stack", parts, axis=axis)
+            h = _dispatch("np_stack", [parts], axis=axis)
             if h is not _MISSING:
                 return h
             raise OutOfReach("np.stack form")
@@ -537,7 +537,17 @@ class Library:
                 return res
             return ix.IArr.from_fn([roff[-1], coff[-1]], fn, cplx=cp)
 
-        return {"block": np_block, "array": np_array, "roll": np_roll, "zeros_like": np_zeros_like, "empty_like": np_zeros_like, "empty": np_empty,
+        def np_mean(a):
+            if isinstance(a, ElemSq):
+                return a.mean()
+            raise OutOfReach("np.mean form")
+
+        def np_clip(a, lo, hi):
+            if isinstance(a, ix.IArr):
+                return a.map(lambda x: ix.ite(x < lo, lo, ix.ite(x > hi, hi, x)))
+            raise OutOfReach("np.clip form")
+
+        return {"mean": np_mean, "clip": np_clip, "block": np_block, "array": np_array, "roll": np_roll, "zeros_like": np_zeros_like, "empty_like": np_zeros_like, "empty": np_empty,
                 "concatenate": np_concatenate, "real": np_real, "imag": np_imag, "any": np_any, "allclose": np_allclose}
 
     # allocation hook: the active domain decides what np.zeros / np.eye produce
